@@ -36,6 +36,8 @@ def run(rep):
     scalechecks.dwt_vjp(rep, "C05", rep.tier)          # large inputs (size thresholds)
     from .. import autogradchecks
     autogradchecks.regimes(rep, "C05", autogradchecks.dwt_cases(), "C05: two calls before one backward, second backward, unused outputs")
+    hs = autogradchecks.tape_histories(rep, rep.tier)
+    autogradchecks.tape_replay(rep, "C05", autogradchecks.dwt_cases(), hs, 12 if rep.tier == "quick" else 120)
     rep.assumptions += ["cotangents and inputs are eliminated by linearity (C07): the VJP operator is extracted on identity batches",
                         "TLC bounds in coverage.tlc_runs"]
 
